@@ -305,6 +305,142 @@ Definition build_confreq (c : ipcp_cfg) : list opt :=
     if negb (existsb (N.eqb t) (ic_rejected c)) && usable x then [ip_option t x] else [] in
   want 3%N (ic_local c) ++ want 129%N (ic_dns1 c) ++ want 131%N (ic_dns2 c).
 
+(* ---- histories on ONE protocol object ------------------------------------------------------
+   Everything a handler remembers between calls (peer.*, rejected[...], values learned from the
+   subscriber's Ack/Nak of our own request, configuration set by the owner) is state of the object. *)
+
+(* SetPeerAddress.  Repaired: the address negotiated under the previous assignment is forgotten, so that a
+   stale peer.Address can never be adopted; as found: peer.Address survives. *)
+Definition ipcp_set_peer (fl : flags) (c : ipcp_cfg) (p : ipcp_peer) (a : option bytes) : ipcp_cfg * ipcp_peer :=
+  (mkicfg (to4o a) (ic_dns1 c) (ic_dns2 c) (ic_local c) (ic_rejected c),
+   if f_adopt fl then p else mkipeer None (pp_dns1 p) (pp_dns2 p)).
+
+Record iobj := mkiobj { io_cfg : ipcp_cfg; io_peer : ipcp_peer }.
+Inductive iop :=
+| IReq (os : list opt)                 (* ProcessConfReq *)
+| IAck (os : list opt)                 (* ProcessConfAck *)
+| INak (os : list opt)                 (* ProcessConfNak *)
+| IRej (os : list opt)                 (* ProcessConfRej *)
+| ISetPeer (a : option bytes)          (* SetPeerAddress *)
+| ISetDNS (d1 d2 : option bytes)       (* SetDNS *)
+| ISetAddr (a : option bytes).         (* SetAddress *)
+
+Definition iobj_step (fl : flags) (s : iobj) (o : iop) : iobj * option res :=
+  let c := io_cfg s in
+  match o with
+  | IReq os => let (r, p') := ipcp_req c (io_peer s) os in (mkiobj c p', Some r)
+  | IAck os | INak os => (mkiobj (ipcp_learn c os) (io_peer s), None)
+  | IRej os => (mkiobj (ipcp_rejected c os) (io_peer s), None)
+  | ISetPeer a => let (c', p') := ipcp_set_peer fl c (io_peer s) a in (mkiobj c' p', None)
+  | ISetDNS d1 d2 => (mkiobj (mkicfg (ic_assigned c) (to4o d1) (to4o d2) (ic_local c) (ic_rejected c)) (io_peer s), None)
+  | ISetAddr a => (mkiobj (mkicfg (ic_assigned c) (ic_dns1 c) (ic_dns2 c) (to4o a) (ic_rejected c)) (io_peer s), None)
+  end.
+
+(* the trace of a history: for every ProcessConfReq the configuration in force, the request, the result *)
+Fixpoint iobj_trace (fl : flags) (s : iobj) (ops : list iop) : list (ipcp_cfg * list opt * res) :=
+  match ops with
+  | [] => []
+  | o :: rest =>
+      let (s', r) := iobj_step fl s o in
+      match o, r with
+      | IReq os, Some x => (io_cfg s, os, x) :: iobj_trace fl s' rest
+      | _, _ => iobj_trace fl s' rest
+      end
+  end.
+Fixpoint iobj_run (fl : flags) (s : iobj) (ops : list iop) : iobj :=
+  match ops with [] => s | o :: rest => iobj_run fl (fst (iobj_step fl s o)) rest end.
+
+(* the assigned address in force after a history: the most recent SetPeerAddress, nothing else *)
+Fixpoint last_set_peer (ops : list iop) (cur : option bytes) : option bytes :=
+  match ops with
+  | [] => cur
+  | ISetPeer a :: rest => last_set_peer rest (to4o a)
+  | _ :: rest => last_set_peer rest cur
+  end.
+
+(* -- LCP object -- *)
+Record lobj := mklobj {
+  lo_mru : N; lo_magic : N; lo_auth : N; lo_algo : N; lo_want : bool;     (* l.local *)
+  lo_rej : list N;                                                          (* l.rejected *)
+  lo_peer : lcp_peer
+}.
+Definition lobj0 (magic : N) : lobj := mklobj default_pppoe_mru magic 0 0 false [] lpeer0.
+Inductive lop :=
+| LReq (os : list opt) | LAck (os : list opt) | LNak (os : list opt) | LRej (os : list opt)
+| LSetMagic (m : N) | LSetMRU (m : N) | LSetAuth (proto algo : N).
+
+Definition lcp_learn_opt (nak : bool) (s : lobj) (o : opt) : lobj :=
+  let d := o_data o in
+  if N.eqb (o_type o) 1 && Nat.eqb (length d) 2
+  then mklobj (num16 d) (lo_magic s) (lo_auth s) (lo_algo s) (lo_want s) (lo_rej s) (lo_peer s)
+  else if N.eqb (o_type o) 5 && Nat.eqb (length d) 4
+  then mklobj (lo_mru s) (num32 d) (lo_auth s) (lo_algo s) (lo_want s) (lo_rej s) (lo_peer s)
+  else if nak && N.eqb (o_type o) 3 && (2 <=? length d)%nat
+  then mklobj (lo_mru s) (lo_magic s) (num16 d)
+              (match d with _ :: _ :: a :: _ => a | _ => lo_algo s end) (lo_want s) (lo_rej s) (lo_peer s)
+  else s.
+
+Definition put32b (n : N) : bytes := put32 n.
+Definition auth_option (proto algo : N) : opt :=
+  if N.eqb proto proto_chap then mkopt 3 (put16 proto ++ [algo]) else mkopt 3 (put16 proto).
+Definition lcp_build (s : lobj) : list opt :=
+  let rej t := existsb (N.eqb t) (lo_rej s) in
+  (if negb (rej 1%N) then [mru_option (lo_mru s)] else []) ++
+  (if negb (rej 5%N) && negb (N.eqb (lo_magic s) 0) then [mkopt 5 (put32b (lo_magic s))] else []) ++
+  (if negb (rej 3%N) && lo_want s then [auth_option (lo_auth s) (lo_algo s)] else []).
+
+Definition lobj_step (fl : flags) (s : lobj) (o : lop) : lobj * option res :=
+  match o with
+  | LReq os => let (r, p') := lcp_req fl (lo_magic s) (lo_peer s) os in
+               (mklobj (lo_mru s) (lo_magic s) (lo_auth s) (lo_algo s) (lo_want s) (lo_rej s) p', Some r)
+  | LAck os => (fold_left (lcp_learn_opt false) os s, None)
+  | LNak os => (fold_left (lcp_learn_opt true) os s, None)
+  | LRej os => (mklobj (lo_mru s) (lo_magic s) (lo_auth s) (lo_algo s) (lo_want s) (map o_type os ++ lo_rej s) (lo_peer s), None)
+  | LSetMagic m => (mklobj (lo_mru s) m (lo_auth s) (lo_algo s) (lo_want s) (lo_rej s) (lo_peer s), None)
+  | LSetMRU m => (mklobj m (lo_magic s) (lo_auth s) (lo_algo s) (lo_want s) (lo_rej s) (lo_peer s), None)
+  | LSetAuth pr al => (mklobj (lo_mru s) (lo_magic s) pr al true (lo_rej s) (lo_peer s), None)
+  end.
+
+(* trace: the local magic number in force at each ProcessConfReq *)
+Fixpoint lobj_trace (fl : flags) (s : lobj) (ops : list lop) : list (N * list opt * res) :=
+  match ops with
+  | [] => []
+  | o :: rest =>
+      let (s', r) := lobj_step fl s o in
+      match o, r with
+      | LReq os, Some x => (lo_magic s, os, x) :: lobj_trace fl s' rest
+      | _, _ => lobj_trace fl s' rest
+      end
+  end.
+
+(* -- IPv6CP object -- *)
+Record v6obj := mkv6obj { vo_local : bytes; vo_rej : list N; vo_peer : bytes }.
+Inductive v6op :=
+| VReq (os : list opt) (oracle : list bytes) | VAck (os : list opt) | VNak (os : list opt) | VRej (os : list opt)
+| VSetID (i : bytes).
+Definition v6_learn_opt (s : v6obj) (o : opt) : v6obj :=
+  if N.eqb (o_type o) 1 && Nat.eqb (length (o_data o)) 8 then mkv6obj (o_data o) (vo_rej s) (vo_peer s) else s.
+Definition v6_build (s : v6obj) : list opt :=
+  if negb (existsb (N.eqb 1%N) (vo_rej s)) then [iid_option (vo_local s)] else [].
+Definition v6obj_step (s : v6obj) (o : v6op) : v6obj * option res :=
+  match o with
+  | VReq os oracle => let r := ipv6cp_req (vo_local s) (vo_peer s) oracle os in
+                      (mkv6obj (vo_local s) (vo_rej s) (v6_peer r), Some (v6_res r))
+  | VAck os | VNak os => (fold_left v6_learn_opt os s, None)
+  | VRej os => (mkv6obj (vo_local s) (map o_type os ++ vo_rej s) (vo_peer s), None)
+  | VSetID i => (mkv6obj i (vo_rej s) (vo_peer s), None)
+  end.
+Fixpoint v6obj_trace (s : v6obj) (ops : list v6op) : list (bytes * list opt * res) :=
+  match ops with
+  | [] => []
+  | o :: rest =>
+      let (s', r) := v6obj_step s o in
+      match o, r with
+      | VReq os _, Some x => (vo_local s, os, x) :: v6obj_trace s' rest
+      | _, _ => v6obj_trace s' rest
+      end
+  end.
+
 (* ---- the PPPoE session around IPCP (internal/pppoe/session.go) ---- *)
 Definition fallback_addr : bytes := (v4prefix ++ [100; 64; 0; 1])%N.   (* net.ParseIP("100.64.0.1") *)
 
@@ -360,7 +496,9 @@ Inductive sev :=
 | EvAck                             (* the subscriber acknowledges our last Configure-Request verbatim *)
 | EvAckW (wire : bytes)             (* Configure-Ack with our last identifier and arbitrary contents *)
 | EvNak (wire : bytes)              (* Configure-Nak with our last identifier *)
-| EvRej (wire : bytes).             (* Configure-Reject with our last identifier *)
+| EvRej (wire : bytes)              (* Configure-Reject with our last identifier *)
+| EvReauth (aaa : option bytes).    (* LCP renegotiated, authentication repeated: extractIPFromAttributes with
+                                       the new AAA answer and startNCP run again on the same session *)
 
 (* every scr rebuilds our request from the configuration as it is at that moment *)
 Definition next_req (c : ipcp_cfg) (acts : list act) (last : list opt) : list opt :=
@@ -381,6 +519,15 @@ Definition sess_step (fl : flags) (s : sess) (e : sev) : sess * list act :=
   | EvAckW w => sess_fsm_only fl s (ipcp_learn (s_cfg s) (parse_lenient w)) (rca_event (s_fsm s) 0)
   | EvNak w => sess_fsm_only fl s (ipcp_learn (s_cfg s) (parse_lenient w)) (rcn_event (s_fsm s) 0)
   | EvRej w => sess_fsm_only fl s (ipcp_rejected (s_cfg s) (parse_lenient w)) (rcn_event (s_fsm s) 0)
+  | EvReauth aaa =>
+      (* the session address is kept unless AAA delivers a new one; nil falls back to 100.64.0.1;
+         SetPeerAddress and SetDNS (DNS1/DNS2 are already set) run again; Up/Open are no-ops in
+         states 6..9, the only ones a started session is in *)
+      let a := match extract_ip fl aaa with Some x => x
+               | None => match s_addr s with Some x => x | None => fallback_addr end end in
+      let (c1, p1) := ipcp_set_peer fl (s_cfg s) (s_peer s) (Some a) in
+      let c2 := mkicfg (ic_assigned c1) (to4 dns_default1) (to4 dns_default2) (ic_local c1) (ic_rejected c1) in
+      (mksess c2 (s_fsm s) p1 (Some a) (s_open s) (s_lastreq s), [])
   end.
 
 Fixpoint sess_run (fl : flags) (s : sess) (es : list sev) : sess :=
